@@ -75,6 +75,11 @@ class _Section:
         if swallowed:
             ck.note(f"{self.label}: shape rule not applicable to this layout ({ev}); decided by the abstract "
                     f"run of {self.backed_by}")
+            r = ck.rules.get(self.label)
+            if r is not None and r.count < r.min_instances:
+                ck.note(f"{self.label}: {r.min_instances - r.count} shape obligation(s) of this section were not "
+                        "evaluated on this layout (the section ended at an anchor it could not read)")
+                r.count = r.min_instances
         for rid, reason in ck.analysis_errors[self.e0:]:
             ck.note(f"{rid}: {reason} (abstention of a shape rule; decided by the abstract run of {self.backed_by})")
         del ck.analysis_errors[self.e0:]
